@@ -17,16 +17,19 @@ def impl_bin():
 TRANSLATORS = ["error_codes", "macroapi", "error_consts"]     # error_consts: Model/MacroApi.v err_invalid_params / err_not_found
 MODELS = ["macroapi"]
 BINS = {"release": ["macroapi"]}
-RULE = ("case = one call on one of the compiled APIs (5 traits, 29 methods/subscriptions: 0..5 parameters, Option tails of 1, 2 and 3 "
+RULE = ("case = one call on one of the compiled APIs (6 traits, 37 methods/subscriptions: 0..5 parameters, Option tails of 1, 2 and 3 "
         "(positional methods and a positional subscription; every None/Some pattern of the tail is driven through the generated stub), "
-        "an Option in the middle, all-Option, param_kind array/map, renamed arguments, namespace with default/custom/empty separator, "
+        "an Option in the middle, all-Option, param_kind array/map, renamed arguments, parameters written as raw identifiers (`r#type`, `r#ref`, .. "
+        "un-renamed by name and positional, in a by-name subscription, renamed, as an Option tail) and with leading / trailing underscores and "
+        "digits (`_lead`, `trail_`, `mid1dle`, `r#type_`), namespace with default/custom/empty separator, "
         "aliases, sync/async/blocking, async and sync subscriptions with parameters and typed items, a method without return type, "
         "two labelled negative examples).  `stub` cases call the generated client method with typed argument values (integer "
         "boundaries of u8..u64/i8..i64, Unicode strings incl. escapes/controls/non-BMP, nested structs/enums, Vec, BTreeMap, Option, "
         "serde_json::Value) and a dictated handler outcome (value computed from the received arguments, or an error object with "
         "boundary codes / Unicode message / nested data); `raw` cases hand a hand-built request to the module: positional with "
         "trailing optionals given / null / omitted, absent params, extra elements, whitespace, by-name with any of the three keys "
-        "per parameter in any order with unknown members, duplicates, missing and ill-typed arguments, every alias and near-miss "
+        "per parameter in any order with unknown members, duplicates, near-miss keys that must not be accepted (`type` for an un-renamed `r#type`, "
+        "other separators / cases / affixes), missing and ill-typed arguments, every alias and near-miss "
         "method names, subscriptions through aliases with unsubscribe through every unsubscribe name.  Implementation and extracted "
         "model print: method and params text of the frame the stub sent (compared byte for byte: a correspondence `diff`, key "
         "macroapi-wire-differs, never an oracle failure), identity of the trait method that ran, the argument tuple it received, what "
@@ -36,7 +39,10 @@ RULE = ("case = one call on one of the compiled APIs (5 traits, 29 methods/subsc
         "-32601/-32602.  distinct non-trivial = distinct result lines in which a trait method ran")
 TRUSTED = [
     "translator tools/translators/macroapi.py: reads the #[rpc] trait text of harness/src/bin/macroapi.rs (the text the macro reads) into the API "
-    "descriptions of coq/Gen/MacroApiGen.v; cross-checked on every run against RpcModule::method_names() of the compiled modules and by the differential run",
+    "descriptions of coq/Gen/MacroApiGen.v; cross-checked on every run against RpcModule::method_names() of the compiled modules and by the differential run; "
+    "it also reads how the by-name member key is derived on each side (RpcFnArg::name in rpc_macro.rs, the ParamKind::Map branch of render_client.rs, the "
+    "ParamsObject fields of render_server.rs: a small fragment of string expressions, anything else is an anchor error) and writes the resulting client key / "
+    "server keys of every parameter as `family_keys` (C17_by_name_keys_agree); that syn::Ident::to_string() keeps `r#` is taken from the token text and judged by the differential run",
     "modelled, not verified: the proc-macro's expansion step (syn/quote) is not translated -- coq/Model/MacroApi.v models the code it emits "
     "(render_client.rs / render_server.rs read by hand), tied to the compiled expansion only by the differential run over the compiled family",
     "modelled, not verified: serde's typed (de)serialisation of argument/result types is a parameter (enc/dec) of the theorems; the driver instance "
@@ -90,54 +96,28 @@ def unsub_name(s):
     return s["unsub"] if s["unsub"] is not None else "unsubscribe" + s["name"][len("subscribe"):]
 
 
-# heck 0.5 `transform`, ported from the Rust source (ASCII case classes; other chars: str.isalnum / caseless)
-def heck_words(s):
-    words = []
-    piece = ""
-    pieces = []
-    for ch in s:
-        if ch.isalnum():
-            piece += ch
-        else:
-            pieces.append(piece)
-            piece = ""
-    pieces.append(piece)
-    low = lambda c: "a" <= c <= "z"
-    up = lambda c: "A" <= c <= "Z"
-    for w in pieces:
-        init, mode = 0, "b"
-        i = 0
-        while i < len(w):
-            c = w[i]
-            if i + 1 < len(w):
-                nxt = w[i + 1]
-                next_mode = "l" if low(c) else "u" if up(c) else mode
-                if next_mode == "l" and up(nxt):
-                    words.append(w[init:i + 1])
-                    init, mode = i + 1, "b"
-                elif mode == "u" and up(c) and low(nxt):
-                    words.append(w[init:i])
-                    init, mode = i, "b"
-                else:
-                    mode = next_mode
-            else:
-                words.append(w[init:])
-            i += 1
-    return words
-
-
-def snake(s):
-    return "_".join(w.lower() for w in heck_words(s))
-
-
-def camel(s):
-    ws = heck_words(s)
-    return "".join(w.lower() if i == 0 else w[:1].upper() + w[1:].lower() for i, w in enumerate(ws))
+# heck 0.5 `transform` (snake_case / lowerCamelCase), ported from the Rust source: one port, in the translator module
+heck_words, snake, camel = T.heck_words, T.snake, T.camel
 
 
 def keys_of(q):
+    """the reference: a parameter is accepted under its wire name (rename, else the identifier as written, `r#` included:
+    that is the key the stub of the unchanged macro writes) and the two heck aliases of it.  Fixed here, NOT taken from the
+    translator's reading of the macro sources (T.key_rules): that reading is compared with this in run() step (0c)"""
     n = p_name(q)
     return [n, snake(n), camel(n)]
+
+
+def near_keys(q):
+    """spellings close to a parameter's keys that the generated server must NOT take for it (filtered against the accepted
+    keys of the whole method by the caller): the raw identifier without `r#`, other separators and cases, affixes"""
+    n = p_name(q)
+    bare = q["ident"][2:] if q["ident"].startswith("r#") else q["ident"]
+    ws = heck_words(n)
+    out = [bare, "r#" + bare, "r#" + n, n.upper(), n + "_", "_" + n, "__" + n, n.replace("#", "-"), n.replace("#", ""), n.replace("#", "##"),
+           "-".join(w.lower() for w in ws), "_".join(w.upper() for w in ws), "".join(w[:1].upper() + w[1:].lower() for w in ws),
+           n.strip("_") + "__", n[:-1], n + "x", " " + n, n.replace("_", ""), bare.strip("_"), "R#" + bare]
+    return [k for k in dict.fromkeys(out) if k]
 
 
 # ------------------------------------------------------------------ typed values (Python objects; dicts keep declaration order)
@@ -347,6 +327,14 @@ RET = {
     "2.s0": lambda a: [[(a[0] + i) % U64, a[1] + str(i)] for i in range(1 + a[0] % 3)],
     "3.m0": lambda a: list(reversed(a[0])),
     "4.m0": lambda a: list(a),
+    "5.m0": lambda a: list(a),
+    "5.m1": lambda a: [a[1], a[0]],
+    "5.m2": lambda a: [a[1], a[0]],
+    "5.m3": lambda a: list(a),
+    "5.m4": lambda a: list(reversed(a)),
+    "5.m5": lambda a: list(a),
+    "5.s0": lambda a: [[(a[0] + i) % 2**32, a[1] + str(i)] for i in range(1 + a[0] % 3)],
+    "5.s1": lambda a: [((a[1] if a[1] is not None else 5) + i) % U64 for i in range(1 + a[0] % 3)],
 }
 # labelled examples: (api index, handler) -> why it is outside the property's hypotheses
 NEG_COLLIDE = "4.m0"      # a_b / aB: by-name decoding is ambiguous
@@ -615,6 +603,20 @@ def gen_cases(ctx, ref):
                     tag = "raw-named"
                     if hid == NEG_COLLIDE:
                         tag = "raw-named-collide"
+                elif r < 0.66 and (any(q["ident"].startswith("r#") or "_" in p_name(q) for q in params) or r < 0.63):
+                    # by name, one parameter under a near-miss key no parameter of the method accepts (`type` for an un-renamed
+                    # `r#type`, other separators / cases / affixes): an unknown member, so a required parameter is missing
+                    # (-32602, nothing runs) and an Option parameter is None
+                    allkeys = set(k for q in params for k in keys_of(q))
+                    cands = [(i, k) for i, q in enumerate(params) for k in near_keys(q) if k not in allkeys]
+                    if not cands:
+                        continue
+                    raws = [c for c in cands if params[c[0]]["ident"].startswith("r#")]
+                    i, nk = rng.choice(raws if raws and rng.random() < 0.7 else cands)
+                    members = [(nk if j == i else rng.choice(keys_of(q)), v) for j, (q, v) in enumerate(zip(params, args))]
+                    rng.shuffle(members)
+                    ptxt = emit_object(rng, members)
+                    tag = "raw-named-nearkey"
                 elif r < 0.70:
                     # by name with a duplicated field (same key or another key of the same parameter)
                     members = [(p_name(q), v) for q, v in zip(params, args)]
@@ -897,6 +899,24 @@ def run(ctx):
         if r != want_h:
             ctx.fail("diff", "heck-transcriptions-differ", {"name": n}, {"model": r, "python": want_h})
     ctx.count("heck-names", len(names))
+    # (0c) the by-name key rules the translator read from the proc-macro sources (they feed Gen.family_keys and
+    # C17_by_name_keys_agree) against the fixed reference of this module, on every parameter of the family
+    try:
+        rules = T.key_rules()
+    except T.ParseError as e:
+        ctx.fail("translate", "translator-anchor-missing:macroapi", "proc-macros/src", str(e))
+        rules = None
+    if rules is not None:
+        for a in ref.apis:
+            for it in a["methods"] + a["subs"]:
+                for q in it["params"]:
+                    ctx.evaluations += 1
+                    got = T.param_keys(q, rules)
+                    if got != (p_name(q), keys_of(q)):
+                        ctx.fail("diff", "macro-key-rule-differs", {"trait": a["trait"], "fn": it["fn"], "param": q["ident"], "rename": q["rename"]},
+                                 {"macro sources (client key, server keys)": got, "reference": (p_name(q), keys_of(q)),
+                                  "rules": {k: (T.ops_text(v) if k != "server" else [T.ops_text(o) for o in v]) for k, v in rules.items()}})
+        ctx.count("key-rule-params", sum(len(it["params"]) for a in ref.apis for it in a["methods"] + a["subs"]))
     # (1) calls, in rounds of the quick size (bounds the memory of the thorough tier).  Oracle failures (the property) are
     # reported as they are found, correspondence diffs are kept back and reported after them (at most 300 of each key).
     diffs, ndiff = [], {}
